@@ -3,7 +3,7 @@
    last_day_of_month the code really runs, absence of undefined behaviour of the _weekday / _last conversions on
    arbitrary stored fields, and the release build (no contract checks) of the day / month constructors.
    Property theorems only (proofs in ProofsRev.v); bundled, one Print Assumptions each. *)
-From Tetl Require Import Lib.Base C11.Model C11.Spec C11.ModelCal C11.SpecCal C11.ModelRev C11.ProofsRev.
+From Tetl Require Import Lib.Base C11.Model C11.Spec C11.Proofs2 C11.ModelCal C11.SpecCal C11.ModelRev C11.ProofsRev.
 From Tetl Require Gen.Gen_chrono.
 Local Open Scope Z_scope.
 
@@ -27,8 +27,12 @@ Theorem C11_rev_every_stored_value :
   /\
   (* day - days outside 0..255 fires the constructor's precondition (companion of C11_day_ops) *)
   (forall d dd, 0 <= d <= 255 -> -2147483648 <= dd <= 2147483647 -> ~ (0 <= d - dd <= 255) ->
-     day_minus_days_m d dd = Contract).
-Proof. exact (conj ymd_ok_any (conj last_day_r_any (conj weekday_ops_any day_minus_contract))). Qed.
+     day_minus_days_m d dd = Contract)
+  /\
+  (* weekday{sys_days} / weekday{local_days} for EVERY int32 day count, the last four included (the code widens
+     to long long before `tp + 4`; C11_weekday_from_days is the statement of the int version and stops at INT32_MAX - 4) *)
+  (forall z, -2147483648 <= z <= 2147483647 -> weekday_from_days_m z = Some (weekday_of z)).
+Proof. exact (conj ymd_ok_any (conj last_day_r_any (conj weekday_ops_any (conj day_minus_contract weekday_from_days_all)))). Qed.
 Print Assumptions C11_rev_every_stored_value.
 
 (* no signed overflow / no out-of-bounds read for ANY stored field values (months 0, 13..255, weekdays 7..255,
@@ -69,5 +73,6 @@ Example C11_rev_nonvacuous :
   /\ last_day_r 2024 2 = Ok 29 /\ last_day_r 2023 13 = Ok 0 /\ last_day_r 1900 2 = Ok 28
   /\ weekday_plus_m 255 1 = 4 /\ weekday_minus_days_m 200 (-2147483648) = 6
   /\ day_minus_days_m 0 1 = Contract /\ day_minus_days_nc 0 1 = 255 /\ day_plus_nc 255 1 = 0
+  /\ weekday_from_days_m 2147483647 = Some 5
   /\ ymwd_to_days_m (-32768) 255 255 255 = Ok (-12677995) /\ ymwdl_to_days_m 2024 0 9 = Ok 19689.
 Proof. vm_compute. repeat split; congruence. Qed.
